@@ -89,6 +89,8 @@ def shrink(scn, still_fails, lists=(), ints=(), resets=(), budget=None, normalis
         for lp in lists:
             for path in expand(best, lp):
                 lst = _get(best, path)
+                if not isinstance(lst, list):
+                    continue
                 n = len(lst)
                 chunk = max(1, n // 2)
                 while chunk >= 1 and budget.ok():
